@@ -31,7 +31,7 @@ PART_NAME = {0: "Lie groups (double)", 1: "manifolds", 2: "Spline/BSpline", 3: "
 PLAN = {
     # runs: (sanitizer, threads, iterations per class before division by the class weight)
     "quick": dict(runs=[("none", 2, 500), ("none", 8, 2000), ("tsan", 8, 2000)], model_threads=(2, 3), obs_par=2),
-    "thorough": dict(runs=[("none", 2, 20000), ("none", 3, 20000), ("none", 16, 100000), ("tsan", 2, 5000), ("tsan", 16, 100000)],
+    "thorough": dict(runs=[("none", 2, 20000), ("none", 3, 20000), ("none", 16, 100000), ("tsan", 2, 5000), ("tsan", 16, 10000)],
                      model_threads=(2, 3), obs_par=1),
 }
 
@@ -403,40 +403,53 @@ def parse_tsan(text, repo_inc):
 
 # ----------------------------------------------------------------------------- one class, one run configuration
 
-def run_class(exes, part, cls, san, T, N, seed, workdir, tag):
-    """ref + obs of one class; returns list of events (ref..., obs..., race...)"""
-    exe = exes[(part, san)]
+def _paths(workdir, tag):
     base = os.path.join(workdir, f"run_{tag}")
-    refp, obsp = base + ".ref.ndjson", base + ".obs.ndjson"
-    common = ["--cls", cls, "--T", str(T), "--N", str(N), "--seed", str(seed)]
-    tmo = 560
-    env = None
-    logp = base + ".tsan"
-    if san == "tsan":
-        env = {"TSAN_OPTIONS": f"log_path={logp} halt_on_error=0 exitcode=0 report_thread_leaks=0 history_size=4"}
-    run([exe, "--phase", "ref"] + common + ["--out", refp], tmo, env)
+    return base + ".ref.ndjson", base + ".obs.ndjson", base + ".tsan"
+
+
+def _tsan_env(san, logp):
+    if san != "tsan":
+        return None
+    return {"TSAN_OPTIONS": f"log_path={logp} halt_on_error=0 exitcode=0 report_thread_leaks=0 history_size=4"}
+
+
+def run_ref(exes, part, cls, san, T, N, seed, workdir, tag):
+    """sequential reference run (single thread) of one class; returns the ref events"""
+    refp, obsp, logp = _paths(workdir, tag)
+    run([exes[(part, san)], "--phase", "ref", "--cls", cls, "--T", str(T), "--N", str(N), "--seed", str(seed), "--out", refp], 580, _tsan_env(san, logp + ".ref"))
     evs = read_events(refp)
+    os.remove(refp)
     if len(evs) != T:
         raise V.ToolFailure(f"{cls}: expected {T} ref events, got {len(evs)}")
-    # the sequential run of exactly these instances completed; an abnormal end of the concurrent run is an observation
+    return evs
+
+
+def run_obs(exes, part, cls, san, T, N, seed, workdir, tag, n_eff):
+    """the same instances on T threads; returns obs events (or one crash event) and the race events"""
+    refp, obsp, logp = _paths(workdir, tag)
     e = dict(os.environ)
+    env = _tsan_env(san, logp)
     if env:
         e.update(env)
-    cmd = [exe, "--phase", "obs"] + common + ["--out", obsp]
+    cmd = [exes[(part, san)], "--phase", "obs", "--cls", cls, "--T", str(T), "--N", str(N), "--seed", str(seed), "--out", obsp]
     try:
-        r = subprocess.run(cmd, capture_output=True, text=True, timeout=tmo, env=e)
+        r = subprocess.run(cmd, capture_output=True, text=True, timeout=580, env=e)
     except subprocess.TimeoutExpired:
         raise V.ToolFailure(f"timeout: {' '.join(cmd)}")
+    evs = []
     if r.returncode != 0:
+        # the sequential run of exactly these instances completed; an abnormal end of the concurrent run is an observation
         if r.returncode > 0 and r.returncode != 3:
             raise V.ToolFailure(f"harness failed rc={r.returncode}: {' '.join(cmd)}\n{r.stderr[-1500:]}")
         msg = (r.stderr.strip().splitlines() or ["-"])[-1][:200].replace('"', "'")
-        evs.append({"op": "crash", "cls": cls, "part": part, "T": T, "N": evs[0]["N"], "san": san, "rc": r.returncode, "msg": msg})
+        evs.append({"op": "crash", "cls": cls, "part": part, "T": T, "N": n_eff, "san": san, "rc": r.returncode, "msg": msg})
     else:
-        obs = read_events(obsp)
-        if len(obs) != T:
-            raise V.ToolFailure(f"{cls}: expected {T} obs events, got {len(obs)}")
-        evs += obs
+        evs = read_events(obsp)
+        if len(evs) != T:
+            raise V.ToolFailure(f"{cls}: expected {T} obs events, got {len(evs)}")
+    if os.path.exists(obsp):
+        os.remove(obsp)
     if san == "tsan":
         d = os.path.dirname(logp)
         seen = set()
@@ -444,20 +457,19 @@ def run_class(exes, part, cls, san, T, N, seed, workdir, tag):
         for fn in sorted(os.listdir(d)):
             if fn.startswith(os.path.basename(logp) + "."):
                 txt = open(os.path.join(d, fn), errors="replace").read()
+                os.remove(os.path.join(d, fn))
+                if fn.startswith(os.path.basename(logp) + ".ref."):
+                    if "ThreadSanitizer" in txt:
+                        raise V.ToolFailure(f"ThreadSanitizer report in the single-threaded reference run of {cls}:\n{txt[:800]}")
+                    continue
                 for rep in parse_tsan(txt, None):
                     sig = (rep["kind"], rep["a"], rep["b"])
-                    if sig in seen:
+                    if sig in seen or n >= 8:
                         continue
                     seen.add(sig)
                     n += 1
-                    if n > 8:
-                        break
-                    rep.update({"op": "race", "cls": cls, "part": part, "T": T, "N": evs[0]["N"], "san": "tsan"})
+                    rep.update({"op": "race", "cls": cls, "part": part, "T": T, "N": n_eff, "san": "tsan"})
                     evs.append(rep)
-                os.remove(os.path.join(d, fn))
-    for p in (refp, obsp):
-        if os.path.exists(p):
-            os.remove(p)
     return evs
 
 
@@ -549,18 +561,26 @@ def _check(oc, prop, tier, seed, replay, workdir):
         # ---- runs on real threads
         run_events = {p: [] for p in PARTS}
         todo = [(p, c) for p, c in classes if not only or c == only]
-        ref_jobs = []
         tagn = 0
         for san, T, N in plan["runs"]:
-            futs = []
-            # T threads per process; keep about 16 runnable threads
-            par = max(1, min(8, 16 // T)) if san == "none" else max(1, min(4, 16 // T))
-            with cf.ThreadPoolExecutor(par) as rpool:
+            # stage 1: the single-threaded reference runs, many at a time
+            refs = {}
+            with cf.ThreadPoolExecutor(10) as rpool:
+                futs = []
                 for p, c in todo:
                     tagn += 1
-                    futs.append((p, rpool.submit(run_class, exes, p, c, san, T, N, seed, workdir, f"{tagn}")))
-                for p, f in futs:
-                    run_events[p] += f.result()
+                    futs.append((p, c, tagn, rpool.submit(run_ref, exes, p, c, san, T, N, seed, workdir, f"{tagn}")))
+                for p, c, tg, f in futs:
+                    refs[(p, c)] = (tg, f.result())
+            # stage 2: the concurrent runs, about 16 runnable threads at a time
+            par = max(1, min(8, 16 // T))
+            with cf.ThreadPoolExecutor(par) as opool:
+                futs = []
+                for p, c in todo:
+                    tg, revs = refs[(p, c)]
+                    futs.append((p, c, opool.submit(run_obs, exes, p, c, san, T, N, seed, workdir, f"{tg}", revs[0]["N"])))
+                for p, c, f in futs:
+                    run_events[p] += refs[(p, c)][1] + f.result()
 
         # ---- collect the model results
         model_ev = {p: [] for p in PARTS}
